@@ -41,11 +41,11 @@ META = {
         'RockRidge.new for a symbolic LENGTH of the name (the NM loop would need an inductive invariant over a byte string of symbolic length; the sweep covers every length up to 259 and samples beyond)',
         'attribute (AL) entries - a non-standard extension',
     ],
-    'bounded': ['RockRidge.new parameter sweep (lengths), 7 scenarios, allocator n<=3/5'],
+    'bounded': ['RockRidge.new parameter sweep (lengths), 9 scenarios + random histories, allocator n<=3/5'],
 }
 
 MANIFEST = {
-    'level_text': 'Deductive contracts on RockRidge.new (entry placement between record and continuation area: result even and <= 254 and equal to the bytes placed, CE entry iff something spilled and declaring exactly the spilled length, an independent SUSP walk recovers the name for EVERY name content, the mode for EVERY mode, link count, the symlink target component for component with correct CONTINUE flags, SP/ER/RR/CL/PL/RE exactly as asked; swept over versions, every record length and the boundary name lengths) and on the continuation allocator (add_entry / remove_entry / track_entry / add_rr_ce_entry: areas stay sorted, disjoint, inside the sector, for any block state), plus seven Rock Ridge scenarios executed by the verifier on the real code and decoded by an independent SUSP/RRIP reader (names, types, modes, link counts, targets, relocation with CL/PL/RE landing on the right directories, continuation areas disjoint and inside their sector, entry lengths adding up), reopened, re-mastered and edited. One defect found and repaired (K39: version inference per area made pycdlib refuse its own 1.12 images).',
+    'level_text': 'Deductive contracts on RockRidge.new (entry placement between record and continuation area: result even and <= 254 and equal to the bytes placed, CE entry iff something spilled and declaring exactly the spilled length, an independent SUSP walk recovers the name for EVERY name content, the mode for EVERY mode, link count, the symlink target component for component with correct CONTINUE flags, SP/ER/RR/CL/PL/RE exactly as asked; swept over versions, every record length and the boundary name lengths) and on the continuation allocator (add_entry / remove_entry / track_entry / add_rr_ce_entry: areas stay sorted, disjoint, inside the sector, for any block state), plus nine Rock Ridge scenarios and four random edit histories (thorough: 60) executed by the verifier on the real code and decoded by an independent SUSP/RRIP reader (names, types, modes, link counts, targets, relocation with CL/PL/RE landing on the right directories, continuation areas disjoint and inside their sector, entry lengths adding up), reopened, re-mastered and edited. Four defects found and repaired (K39 version inference per area made pycdlib refuse its own 1.12 images; K44 symbolic links with many short components cut off; K22 empty link target recorded as a plain file; K48 continuation areas and blocks never released).',
     'level_note': 'Unbounded in name contents and modes; bounded (swept) in lengths and in scenario shapes. Trusted: pyvc, the independent reader, z3. Not decided: arbitrary histories, AL entries.',
     'design_ref': 'DESIGN.md section 4 C08',
 }
